@@ -20,6 +20,7 @@
   * `pow_le_two` : `(1+u)^n ≤ 2` when `n u ≤ 1/2`.
 -/
 import EtVerif.Model.Sparse
+import EtVerif.Proofs.FieldScalar
 import Mathlib.Data.Real.Basic
 import Mathlib.Algebra.Order.Ring.Abs
 import Mathlib.Algebra.BigOperators.Group.List.Basic
@@ -118,6 +119,349 @@ theorem push_comp (h : FPModel fl u) (s : KBN ℝ) (v : ℝ) (hs : fl s.sum = s.
     simp only [KBN.push, fs_add, fs_sub, fs_abs, fs_lt, hlt, decide_false,
       Bool.false_eq_true, if_false]
     rw [e]
+
+/-! ### real-arithmetic step lemmas (no `fl`) -/
+
+section arith
+variable {P A kk s x s' e E E' c c' d d' w : ℝ}
+
+theorem abs_add_bound (hP : 1 ≤ P) (hs : |s| ≤ P * A) : |s + x| ≤ P * (A + |x|) := by
+  have h1 : |s + x| ≤ |s| + |x| := abs_add_le s x
+  have h2 : |x| ≤ P * |x| := le_mul_of_one_le_left (abs_nonneg x) hP
+  calc |s + x| ≤ |s| + |x| := h1
+    _ ≤ P * A + P * |x| := add_le_add hs h2
+    _ = P * (A + |x|) := by ring
+
+/-- the partial sum: `|s'| ≤ (1+u)^(k+1) * A'` -/
+theorem step_sum (hu : 0 ≤ u) (hP : 1 ≤ P) (hs : |s| ≤ P * A)
+    (hs' : |s'| ≤ (1 + u) * |s + x|) : |s'| ≤ P * (1 + u) * (A + |x|) := by
+  have h1 := abs_add_bound (x := x) hP hs
+  have hw : 0 ≤ 1 + u := by linarith
+  calc |s'| ≤ (1 + u) * |s + x| := hs'
+    _ ≤ (1 + u) * (P * (A + |x|)) := mul_le_mul_of_nonneg_left h1 hw
+    _ = P * (1 + u) * (A + |x|) := by ring
+
+/-- one local error: `|e| ≤ u * (1+u)^k * A'` -/
+theorem step_e (hu : 0 ≤ u) (hP : 1 ≤ P) (hs : |s| ≤ P * A)
+    (he : |e| ≤ u * |s + x|) : |e| ≤ u * P * (A + |x|) := by
+  have h1 := abs_add_bound (x := x) hP hs
+  calc |e| ≤ u * |s + x| := he
+    _ ≤ u * (P * (A + |x|)) := mul_le_mul_of_nonneg_left h1 hu
+    _ = u * P * (A + |x|) := by ring
+
+/-- the exact accumulated error: `|E'| (1+u) ≤ (k+1) u (1+u)^(k+1) A'` -/
+theorem step_E {A' : ℝ} (hu : 0 ≤ u) (hP : 1 ≤ P) (hk : 0 ≤ kk) (hA : 0 ≤ A) (hAA : A ≤ A')
+    (hE : |E| * (1 + u) ≤ kk * u * P * A) (he : |e| ≤ u * P * A') :
+    |E + e| * (1 + u) ≤ (kk + 1) * u * (P * (1 + u)) * A' := by
+  have hw : 0 ≤ 1 + u := by linarith
+  have hP0 : 0 ≤ P := by linarith
+  have hA' : 0 ≤ A' := le_trans hA hAA
+  have h1 : |E + e| ≤ |E| + |e| := abs_add_le E e
+  have h2 : |E + e| * (1 + u) ≤ |E| * (1 + u) + |e| * (1 + u) := by
+    have := mul_le_mul_of_nonneg_right h1 hw
+    linarith
+  have h3 : |e| * (1 + u) ≤ u * P * A' * (1 + u) := mul_le_mul_of_nonneg_right he hw
+  have hc : 0 ≤ kk * u * P := by positivity
+  have h4 : kk * u * P * A ≤ kk * u * P * A' := mul_le_mul_of_nonneg_left hAA hc
+  have h5 : kk * u * P * A' ≤ kk * u * P * A' * (1 + u) := by
+    have : 0 ≤ kk * u * P * A' := by positivity
+    nlinarith
+  calc |E + e| * (1 + u) ≤ |E| * (1 + u) + |e| * (1 + u) := h2
+    _ ≤ kk * u * P * A' * (1 + u) + u * P * A' * (1 + u) := by linarith
+    _ = (kk + 1) * u * (P * (1 + u)) * A' := by ring
+
+/-- the distance between the stored compensation and the exact accumulated error -/
+theorem step_d {A' : ℝ} (hu : 0 ≤ u) (hP : 1 ≤ P) (hk : 0 ≤ kk) (hA : 0 ≤ A) (hAA : A ≤ A')
+    (hd : d * (1 + u) ≤ kk ^ 2 * u ^ 2 * P ^ 2 * A)
+    (hE' : |E'| * (1 + u) ≤ (kk + 1) * u * (P * (1 + u)) * A')
+    (hd' : d' ≤ (1 + u) * d + u * |E'|) :
+    d' * (1 + u) ≤ (kk + 1) ^ 2 * u ^ 2 * (P * (1 + u)) ^ 2 * A' := by
+  have hw : 0 ≤ 1 + u := by linarith
+  have hw1 : 1 ≤ 1 + u := by linarith
+  have hP0 : 0 ≤ P := by linarith
+  have hA' : 0 ≤ A' := le_trans hA hAA
+  -- Q is the common factor of the target
+  have hQ : 0 ≤ u ^ 2 * (P * (1 + u)) ^ 2 * A' := by positivity
+  have h1 : d' * (1 + u) ≤ (1 + u) * (d * (1 + u)) + u * (|E'| * (1 + u)) := by
+    have := mul_le_mul_of_nonneg_right hd' hw
+    linarith
+  have h2 : (1 + u) * (d * (1 + u)) ≤ (1 + u) * (kk ^ 2 * u ^ 2 * P ^ 2 * A) :=
+    mul_le_mul_of_nonneg_left hd hw
+  have h3 : u * (|E'| * (1 + u)) ≤ u * ((kk + 1) * u * (P * (1 + u)) * A') :=
+    mul_le_mul_of_nonneg_left hE' hu
+  -- term 1 ≤ kk² Q
+  have t1 : (1 + u) * (kk ^ 2 * u ^ 2 * P ^ 2 * A) ≤ kk ^ 2 * (u ^ 2 * (P * (1 + u)) ^ 2 * A') := by
+    have hc : 0 ≤ kk ^ 2 * u ^ 2 * P ^ 2 * (1 + u) := by positivity
+    have ha : A ≤ A' * (1 + u) := by nlinarith
+    have := mul_le_mul_of_nonneg_left ha hc
+    calc (1 + u) * (kk ^ 2 * u ^ 2 * P ^ 2 * A) = kk ^ 2 * u ^ 2 * P ^ 2 * (1 + u) * A := by ring
+      _ ≤ kk ^ 2 * u ^ 2 * P ^ 2 * (1 + u) * (A' * (1 + u)) := this
+      _ = kk ^ 2 * (u ^ 2 * (P * (1 + u)) ^ 2 * A') := by ring
+  -- term 2 ≤ (kk+1) Q
+  have t2 : u * ((kk + 1) * u * (P * (1 + u)) * A') ≤
+      (kk + 1) * (u ^ 2 * (P * (1 + u)) ^ 2 * A') := by
+    have hc : 0 ≤ (kk + 1) * u ^ 2 * A' * (P * (1 + u)) := by positivity
+    have hPw : 1 ≤ P * (1 + u) := by nlinarith
+    have := mul_le_mul_of_nonneg_left hPw hc
+    calc u * ((kk + 1) * u * (P * (1 + u)) * A') = (kk + 1) * u ^ 2 * A' * (P * (1 + u)) * 1 := by ring
+      _ ≤ (kk + 1) * u ^ 2 * A' * (P * (1 + u)) * (P * (1 + u)) := this
+      _ = (kk + 1) * (u ^ 2 * (P * (1 + u)) ^ 2 * A') := by ring
+  have t3 : 0 ≤ kk * (u ^ 2 * (P * (1 + u)) ^ 2 * A') := mul_nonneg hk hQ
+  calc d' * (1 + u) ≤ (1 + u) * (d * (1 + u)) + u * (|E'| * (1 + u)) := h1
+    _ ≤ kk ^ 2 * (u ^ 2 * (P * (1 + u)) ^ 2 * A') + (kk + 1) * (u ^ 2 * (P * (1 + u)) ^ 2 * A') := by
+        linarith
+    _ ≤ (kk + 1) ^ 2 * u ^ 2 * (P * (1 + u)) ^ 2 * A' := by nlinarith
+
+/-- the compensation step in terms of distances -/
+theorem comp_dist (hc' : |c' - (c + e)| ≤ u * |c + e|) (hu : 0 ≤ u) :
+    |c' - (E + e)| ≤ (1 + u) * |c - E| + u * |E + e| := by
+  have h1 : |c' - (E + e)| ≤ |c' - (c + e)| + |c - E| := by
+    have := abs_add_le (c' - (c + e)) (c - E)
+    have e1 : c' - (c + e) + (c - E) = c' - (E + e) := by ring
+    rwa [e1] at this
+  have h2 : |c + e| ≤ |c - E| + |E + e| := by
+    have := abs_add_le (c - E) (E + e)
+    have e1 : c - E + (E + e) = c + e := by ring
+    rwa [e1] at this
+  have h3 : u * |c + e| ≤ u * (|c - E| + |E + e|) := mul_le_mul_of_nonneg_left h2 hu
+  linarith
+
+/-- the final rounded addition -/
+theorem final_dist {S res : ℝ} (hu : 0 ≤ u) (hres : |res - (s + c)| ≤ u * |s + c|)
+    (hS : s + E = S) : |res - S| ≤ u * |S| + (1 + u) * |c - E| := by
+  have e1 : s + c = S + (c - E) := by rw [← hS]; ring
+  have h1 : |s + c| ≤ |S| + |c - E| := by rw [e1]; exact abs_add_le _ _
+  have h2 : |res - S| ≤ |res - (s + c)| + |c - E| := by
+    have := abs_add_le (res - (s + c)) (c - E)
+    have e2 : res - (s + c) + (c - E) = res - S := by rw [e1]; ring
+    rwa [e2] at this
+  have h3 : u * |s + c| ≤ u * (|S| + |c - E|) := mul_le_mul_of_nonneg_left h1 hu
+  linarith
+
+end arith
+
+/-- Bernoulli-type bound: `(1+u)^n (1 - n u) ≤ 1`. -/
+theorem pow_mul_le_one (hu : 0 ≤ u) (n : ℕ) : (1 + u) ^ n * (1 - n * u) ≤ 1 := by
+  induction n with
+  | zero => simp
+  | succ k ih =>
+    have hp : 0 ≤ (1 + u) ^ k := by positivity
+    have h1 : (1 + u) * (1 - ((k : ℝ) + 1) * u) ≤ 1 - k * u := by
+      have : 0 ≤ ((k : ℝ) + 1) * (u * u) := by positivity
+      nlinarith
+    have h2 := mul_le_mul_of_nonneg_left h1 hp
+    have e : (1 + u) ^ (k + 1) * (1 - ((k + 1 : ℕ) : ℝ) * u) =
+        (1 + u) ^ k * ((1 + u) * (1 - ((k : ℝ) + 1) * u)) := by
+      push_cast; ring
+    rw [e]; linarith
+
+/-- `(1+u)^n ≤ 2` as soon as `n u ≤ 1/2`. -/
+theorem pow_le_two (hu : 0 ≤ u) (n : ℕ) (hn : (n : ℝ) * u ≤ 1 / 2) : (1 + u) ^ n ≤ 2 := by
+  have h := pow_mul_le_one hu n
+  have hp : 0 ≤ (1 + u) ^ n := by positivity
+  have : (1 + u) ^ n * (1 / 2) ≤ (1 + u) ^ n * (1 - n * u) :=
+    mul_le_mul_of_nonneg_left (by linarith) hp
+  linarith
+
+/-! ### the invariant of the summation loop -/
+
+/-- `Σ |x_i|` -/
+noncomputable def absSum (xs : List ℝ) : ℝ := (xs.map fun x => |x|).sum
+
+theorem absSum_nil : absSum [] = 0 := rfl
+
+theorem absSum_snoc (ys : List ℝ) (x : ℝ) : absSum (ys ++ [x]) = absSum ys + |x| := by
+  simp [absSum]
+
+theorem absSum_nonneg (xs : List ℝ) : 0 ≤ absSum xs := by
+  induction xs with
+  | nil => simp [absSum]
+  | cons a t ih =>
+    have : absSum (a :: t) = |a| + absSum t := by simp [absSum]
+    rw [this]; have := abs_nonneg a; linarith
+
+theorem abs_fl_le (h : FPModel fl u) (y : ℝ) : |fl y| ≤ (1 + u) * |y| := by
+  have h1 := h.rel y
+  have h2 : |fl y| ≤ |fl y - y| + |y| := by
+    have := abs_add_le (fl y - y) y
+    simpa using this
+  linarith
+
+/-- Invariant after the prefix `ys` (state `st`), with `k = ys.length`, `A = Σ|y|`,
+    `E = Σ ys - st.sum` the *exact* accumulated error of the running sum:
+    the running sum is representable, `|sum| ≤ (1+u)^k A`,
+    `|E| (1+u) ≤ k u (1+u)^k A`, and `|comp - E| (1+u) ≤ k² u² (1+u)^(2k) A`. -/
+structure Inv (fl : ℝ → ℝ) (u : ℝ) (ys : List ℝ) (st : KBN ℝ) : Prop where
+  repr : fl st.sum = st.sum
+  sumB : |st.sum| ≤ (1 + u) ^ ys.length * absSum ys
+  errB : |ys.sum - st.sum| * (1 + u) ≤ (ys.length : ℝ) * u * (1 + u) ^ ys.length * absSum ys
+  compB : |st.comp - (ys.sum - st.sum)| * (1 + u) ≤
+    (ys.length : ℝ) ^ 2 * u ^ 2 * ((1 + u) ^ ys.length) ^ 2 * absSum ys
+
+theorem inv_nil (h : FPModel fl u) : Inv fl u [] (run fl []) := by
+  refine ⟨?_, ?_, ?_, ?_⟩ <;> simp [run_nil, absSum_nil, h.fl_zero]
+
+theorem inv_snoc (h : FPModel fl u) (ys : List ℝ) (x : ℝ) (st : KBN ℝ) (hx : fl x = x)
+    (I : Inv fl u ys st) : Inv fl u (ys ++ [x]) (@KBN.push ℝ (flScalar fl) st x) := by
+  have hu := h.u_nonneg
+  have hP : 1 ≤ (1 + u) ^ ys.length := one_le_pow₀ (by linarith)
+  have hk : (0 : ℝ) ≤ (ys.length : ℝ) := Nat.cast_nonneg _
+  have hA := absSum_nonneg ys
+  have hAA : absSum ys ≤ absSum ys + |x| := by have := abs_nonneg x; linarith
+  -- the new running sum and the local error
+  have hrel := h.rel (st.sum + x)
+  have hs' : |fl (st.sum + x)| ≤ (1 + u) * |st.sum + x| := abs_fl_le h _
+  have he : |st.sum + x - fl (st.sum + x)| ≤ u * |st.sum + x| := by
+    rw [abs_sub_comm]; exact hrel
+  have hcrel := h.rel (st.comp + (st.sum + x - fl (st.sum + x)))
+  have eE : (ys ++ [x]).sum - fl (st.sum + x) =
+      (ys.sum - st.sum) + (st.sum + x - fl (st.sum + x)) := by
+    simp only [List.sum_append, List.sum_singleton]; ring
+  have elen : (((ys ++ [x]).length : ℕ) : ℝ) = (ys.length : ℝ) + 1 := by simp
+  have epow : (1 + u) ^ (ys ++ [x]).length = (1 + u) ^ ys.length * (1 + u) := by
+    simp [pow_succ]
+  have b_e := step_e (x := x) hu hP I.sumB he
+  have b_E := step_E hu hP hk hA hAA I.errB b_e
+  have b_dist := comp_dist (E := ys.sum - st.sum) hcrel hu
+  have b_d := step_d hu hP hk hA hAA I.compB b_E b_dist
+  refine ⟨?_, ?_, ?_, ?_⟩
+  · rw [push_sum]; exact h.fl_idem _
+  · rw [push_sum, epow, absSum_snoc]
+    exact step_sum hu hP I.sumB hs'
+  · rw [push_sum, eE, elen, epow, absSum_snoc]; exact b_E
+  · rw [push_comp h st x I.repr hx, push_sum, eE, elen, epow, absSum_snoc]; exact b_d
+
+/-- The invariant holds after any list of representable numbers. -/
+theorem run_inv (h : FPModel fl u) (xs : List ℝ) (hx : ∀ x ∈ xs, fl x = x) :
+    Inv fl u xs (run fl xs) := by
+  induction xs using List.reverseRecOn with
+  | nil => exact inv_nil h
+  | append_singleton ys x ih =>
+    rw [run_snoc]
+    exact inv_snoc h ys x _ (hx x (by simp)) (ih fun y hy => hx y (by simp [hy]))
+
+/-- Error bound with the explicit growth factor `(1+u)^(2n)`; no smallness condition. -/
+theorem result_bound_pow (h : FPModel fl u) (xs : List ℝ) (hx : ∀ x ∈ xs, fl x = x) :
+    |@kbnSum ℝ (flScalar fl) xs - xs.sum| ≤
+      u * |xs.sum| + (xs.length : ℝ) ^ 2 * u ^ 2 * ((1 + u) ^ xs.length) ^ 2 * absSum xs := by
+  have I := run_inv h xs hx
+  have hres := h.rel ((run fl xs).sum + (run fl xs).comp)
+  have hS : (run fl xs).sum + (xs.sum - (run fl xs).sum) = xs.sum := by ring
+  have hf := final_dist h.u_nonneg hres hS
+  rw [kbnSum_eq]
+  have := I.compB
+  linarith
+
+/-- With `n u ≤ 1/2` the growth factor is at most 4. -/
+theorem result_bound (h : FPModel fl u) (xs : List ℝ) (hx : ∀ x ∈ xs, fl x = x)
+    (hn : (xs.length : ℝ) * u ≤ 1 / 2) :
+    |@kbnSum ℝ (flScalar fl) xs - xs.sum| ≤
+      u * |xs.sum| + 4 * (xs.length : ℝ) ^ 2 * u ^ 2 * absSum xs := by
+  have hb := result_bound_pow h xs hx
+  have hu := h.u_nonneg
+  have hp2 := pow_le_two hu xs.length hn
+  have hp0 : 0 ≤ (1 + u) ^ xs.length := by positivity
+  have hsq : ((1 + u) ^ xs.length) ^ 2 ≤ 4 := by nlinarith
+  have hc : 0 ≤ (xs.length : ℝ) ^ 2 * u ^ 2 * absSum xs := by
+    have := absSum_nonneg xs; positivity
+  have := mul_le_mul_of_nonneg_left hsq hc
+  have e1 : (xs.length : ℝ) ^ 2 * u ^ 2 * ((1 + u) ^ xs.length) ^ 2 * absSum xs =
+      (xs.length : ℝ) ^ 2 * u ^ 2 * absSum xs * ((1 + u) ^ xs.length) ^ 2 := by ring
+  rw [e1] at hb
+  linarith
+
+/-! ### dot products: the summer is fed the rounded products -/
+
+/-- At the rounded arithmetic `dotTerms` yields the roundings of the exact products
+    (same index matching: indices are compared exactly). -/
+theorem dotTerms_fl (fl : ℝ → ℝ) (e1 e2 : List (Entry ℝ)) :
+    @dotTerms ℝ (flScalar fl) e1 e2 = (@dotTerms ℝ fieldScalar e1 e2).map fl := by
+  fun_induction @dotTerms ℝ fieldScalar e1 e2 with
+  | case1 e2 => rw [@dotTerms.eq_1 ℝ (flScalar fl)]; rfl
+  | case2 e1 h =>
+    cases e1 with
+    | nil => exact absurd rfl h
+    | cons a t => rw [@dotTerms.eq_2 ℝ (flScalar fl) _ (by simp)]; rfl
+  | case3 a e1 b e2 hlt ih => rw [@dotTerms.eq_3 ℝ (flScalar fl), if_pos hlt, ih]
+  | case4 a e1 b e2 hlt heq ih =>
+    rw [@dotTerms.eq_3 ℝ (flScalar fl), if_neg hlt, if_pos heq, ih]; rfl
+  | case5 a e1 b e2 hlt hne ih =>
+    rw [@dotTerms.eq_3 ℝ (flScalar fl), if_neg hlt, if_neg hne, ih]
+
+theorem sum_map_fl_sub (h : FPModel fl u) (ps : List ℝ) :
+    |(ps.map fl).sum - ps.sum| ≤ u * absSum ps := by
+  induction ps with
+  | nil => simp [absSum]
+  | cons p t ih =>
+    have e1 : ((p :: t).map fl).sum - (p :: t).sum = (fl p - p) + ((t.map fl).sum - t.sum) := by
+      simp only [List.map_cons, List.sum_cons]; ring
+    have e2 : absSum (p :: t) = |p| + absSum t := by simp [absSum]
+    have h1 := abs_add_le (fl p - p) ((t.map fl).sum - t.sum)
+    have h2 := h.rel p
+    rw [e1, e2]; linarith
+
+theorem absSum_map_fl_le (h : FPModel fl u) (ps : List ℝ) :
+    absSum (ps.map fl) ≤ (1 + u) * absSum ps := by
+  induction ps with
+  | nil => simp [absSum]
+  | cons p t ih =>
+    have e1 : absSum ((p :: t).map fl) = |fl p| + absSum (t.map fl) := by simp [absSum]
+    have e2 : absSum (p :: t) = |p| + absSum t := by simp [absSum]
+    have h2 := abs_fl_le h p
+    rw [e1, e2]; linarith
+
+theorem abs_sum_le_absSum (ps : List ℝ) : |ps.sum| ≤ absSum ps := by
+  induction ps with
+  | nil => simp [absSum]
+  | cons p t ih =>
+    have e2 : absSum (p :: t) = |p| + absSum t := by simp [absSum]
+    have h1 := abs_add_le p t.sum
+    rw [List.sum_cons, e2]; linarith
+
+/-! ### a model that is not exact arithmetic (non-vacuity with `u > 0`) -/
+
+/-- Exact arithmetic except that `3` is not representable and rounds to `3 + 1/8`. -/
+noncomputable def flBump (x : ℝ) : ℝ := if x = 3 then 25 / 8 else x
+
+theorem flBump_three : flBump 3 = 25 / 8 := by simp [flBump]
+theorem flBump_ne {x : ℝ} (hx : x ≠ 3) : flBump x = x := by simp [flBump, hx]
+theorem flBump_repr {x : ℝ} (hx : flBump x = x) : x ≠ 3 := by
+  intro h3; rw [h3, flBump_three] at hx; norm_num at hx
+
+theorem fpModel_bump : FPModel flBump (1 / 24) where
+  u_nonneg := by norm_num
+  rel := by
+    intro x
+    by_cases hx : x = 3
+    · rw [hx, flBump_three]; norm_num [abs_of_pos]
+    · rw [flBump_ne hx]; simp
+  fl_zero := flBump_ne (by norm_num)
+  fl_idem := by
+    intro x
+    by_cases hx : x = 3
+    · rw [hx, flBump_three]; exact flBump_ne (by norm_num)
+    · rw [flBump_ne hx, flBump_ne hx]
+  twoSum := by
+    intro a b ha hb hab
+    have ha3 := flBump_repr ha
+    have hb3 := flBump_repr hb
+    by_cases hs : a + b = 3
+    · rw [hs, flBump_three]
+      have h1 : (25 / 8 : ℝ) - a ≠ 3 := by
+        intro h
+        have ea : a = 1 / 8 := by linarith
+        have eb : b = 23 / 8 := by linarith
+        rw [ea, eb] at hab
+        norm_num [abs_of_pos] at hab
+      rw [flBump_ne h1]
+      have h2 : b - (25 / 8 - a) ≠ 3 := by
+        intro h; have : a + b = 49 / 8 := by linarith
+        rw [hs] at this; norm_num at this
+      rw [flBump_ne h2]; linarith
+    · rw [flBump_ne hs]
+      have e1 : a + b - a = b := by ring
+      rw [e1, flBump_ne hb3]
+      simp [flBump_ne]
 
 end KBNFloat
 end EtVerif
